@@ -68,9 +68,9 @@ func (P *Prog) receiverClosure(fn *ssa.Function) []*ssa.Function {
 // exit, or the delegated return of in itself (when in is a call).
 func (P *Prog) afterOnlySuccess(fn *ssa.Function, in ssa.Instruction) (bool, string) {
 	fr := P.factsOf(fn)
-	exitOf := map[*ssa.Return]*exitInfo{}
+	exitOf := map[*ssa.Return][]*exitInfo{}
 	for _, x := range fr.exits {
-		exitOf[x.ret] = x
+		exitOf[x.ret] = append(exitOf[x.ret], x)
 	}
 	seen := map[*ssa.BasicBlock]bool{}
 	var bad string
@@ -78,22 +78,20 @@ func (P *Prog) afterOnlySuccess(fn *ssa.Function, in ssa.Instruction) (bool, str
 	walk = func(b *ssa.BasicBlock, fromIdx int) {
 		for i := fromIdx; i < len(b.Instrs); i++ {
 			if ret, ok := b.Instrs[i].(*ssa.Return); ok {
-				x := exitOf[ret]
-				if x == nil {
-					continue
-				}
-				switch {
-				case x.kind == exitSuccess && !x.delegated:
-				case x.delegated:
-					// the delegated verdict must be the writing call's own
-					c := delegCall(x.errTerm)
-					if v, isVal := in.(ssa.Value); !(isVal && c != nil && c.eq(P.terms.of(v))) {
-						if ex := x.errTerm; !(isVal && ex.Op == "res" && ex.Args[0].eq(P.terms.of(v))) {
-							bad = "after the write a different call's verdict is returned at " + P.instrPos(ret)
+				for _, x := range exitOf[ret] {
+					switch {
+					case x.kind == exitSuccess && !x.delegated:
+					case x.delegated:
+						// the delegated verdict must be the writing call's own
+						c := delegCall(x.errTerm)
+						if v, isVal := in.(ssa.Value); !(isVal && c != nil && c.eq(P.terms.of(v))) {
+							if ex := x.errTerm; !(isVal && ex.Op == "res" && ex.Args[0].eq(P.terms.of(v))) {
+								bad = "after the write a different call's verdict is returned at " + P.instrPos(ret)
+							}
 						}
+					default:
+						bad = "a failure exit (" + x.errTerm.String() + ") at " + P.instrPos(ret) + " is reachable after the write"
 					}
-				default:
-					bad = "a failure exit (" + x.errTerm.String() + ") at " + P.instrPos(ret) + " is reachable after the write"
 				}
 			}
 		}
